@@ -353,4 +353,50 @@ except Exception as e:
 shutil.rmtree(top)
 sys.exit(1 if bad else 0)
 '''
+# real-build replay for the bounds scan: files that vanish between listing and opening (1) or are not valid data files (2)
+REPLAY_BOUNDS_SCAN = '''
+from vlib import build
+import numpy as np, tempfile, os, shutil, sys, glob, warnings
+warnings.simplefilter('ignore')
+drf = build.load_pkg()
+import h5py
+from digital_rf import digital_rf_hdf5 as H
+kw = %r
+bad_ = list(kw.get('bad', [0])); nfile = len(bad_)
+S = 10**10
+top = tempfile.mkdtemp(); os.makedirs(top + '/ch')
+w = drf.DigitalRFWriter(top + '/ch', 'i2', 3600, 1000, S, 10, 1, 'u', is_complex=False, is_continuous=False, marching_periods=False)
+w.rf_write(np.arange(10 * nfile, dtype='i2')); w.close()
+files = sorted(glob.glob(top + '/ch/*/rf@*.h5'))
+assert len(files) == nfile
+rdr = drf.DigitalRFReader(top)
+vanish = set()
+for f, b in zip(files, bad_):
+    if b == 1: vanish.add(f)
+    if b == 2:
+        os.remove(f)
+        with h5py.File(f, 'w') as h: h.attrs['not'] = 'a data file'
+class FileProxy:
+    # the environment, not the code under test: a listed file is gone by the time the reader opens it
+    def __call__(self, name, *a, **k):
+        if name in vanish and os.path.exists(name): os.remove(name)
+        return h5py.File(name, *a, **k)
+class H5Proxy:
+    File = FileProxy()
+    def __getattr__(self, k): return getattr(h5py, k)
+H.h5py = H5Proxy()
+good = [i for i, b in enumerate(bad_) if b == 0]
+want = (S + 10 * good[0], S + 10 * good[-1] + 9) if good else (None, None)
+bad = 0
+try:
+    got = rdr.get_bounds('ch')
+    print('bounds', got, 'expected', want)
+    bad = tuple(got) != want
+except Exception as e:
+    print('get_bounds raised', type(e).__name__, e); bad = 1
+H.h5py = h5py
+shutil.rmtree(top)
+sys.exit(1 if bad else 0)
+'''
+READ_REPLAYS['_bounds_scan'] = lambda kw: REPLAY_BOUNDS_SCAN % (kw,)
 READ_REPLAYS['_combine3'] = READ_REPLAYS['_combine2_arrays'] = lambda kw: REPLAY_MERGE % (kw,)
